@@ -10,6 +10,7 @@ import (
 	"sort"
 	"strings"
 	"sync"
+	"sync/atomic"
 	"time"
 
 	"golang.org/x/tools/go/ssa"
@@ -27,16 +28,19 @@ type Program struct {
 
 // Options configure one harness instance.
 type Options struct {
-	Harness      string
-	Params       map[string]string
-	Enabled      func(id string) bool // which assertion ids are checked
-	Known        map[string]bool      // open known-finding region ids (excluded)
-	MaxDecisions int
-	MaxInstr     int64
-	MaxDigits    int // largest digit count NumDigits may fork to (unwinding bound)
-	MaxPaths     int
-	PathModels   bool // extract one model per completed path (translation validation)
-	Solvers      []*Solver
+	Harness           string
+	Params            map[string]string
+	Enabled           func(id string) bool // which assertion ids are checked
+	Known             map[string]bool      // open known-finding region ids (excluded)
+	MaxDecisions      int
+	MaxInstr          int64
+	MaxDigits         int // largest digit count NumDigits may fork to (unwinding bound)
+	MaxPaths          int
+	OneShotTimeoutSec int
+	Portfolio         bool
+	FeasTimeoutMs     int  // timeout of branch-feasibility queries (unknown = keep the branch)
+	PathModels        bool // extract one model per completed path (translation validation)
+	Solvers           []*Solver
 }
 
 type Input struct {
@@ -90,38 +94,40 @@ type frame struct {
 
 // Exec is the per-path interpreter state.
 type Exec struct {
-	P      *Program
-	Opt    *Options
-	S      *Solver
-	prefix []Dec
-	pos    int
-	trace  []Dec
-	pc     []*Term
-	inputs []Input
-	obs    []Observation
-	objSeq int
-	fresh  int
-	instr  int64
-	res    *PathResult
-	forks  [][]Dec // sibling prefixes discovered on this path
-	ndMemo map[*Term]int64
-	refLo  map[*Term]*big.Int
-	refHi  map[*Term]*big.Int
-	depth  int
-	skip     map[string]int
-	model    map[string]*big.Int // a model of the current pc (nil if unknown)
-	pcVars   []*Term
-	pcVarSet map[*Term]bool
-	pending  []pendingAssert
-	flushing bool
-	pcSet    map[*Term]bool
-	fixed    map[*Term]*big.Int
-	prodMemo map[*Term]*Term
-	defs     []*Term // defining equations of abstracted products
-	initMode bool
-	created  []*Object
-	concrete bool // init mode: no solver, everything must fold
-	stack  []string
+	P          *Program
+	Opt        *Options
+	S          *Solver
+	prefix     []Dec
+	pos        int
+	trace      []Dec
+	pc         []*Term
+	inputs     []Input
+	obs        []Observation
+	objSeq     int
+	fresh      int
+	instr      int64
+	res        *PathResult
+	forks      [][]Dec // sibling prefixes discovered on this path
+	ndMemo     map[*Term]int64
+	refLo      map[*Term]*big.Int
+	refHi      map[*Term]*big.Int
+	depth      int
+	skip       map[string]int
+	model      map[string]*big.Int // a model of the current pc (nil if unknown)
+	pcVars     []*Term
+	pcVarSet   map[*Term]bool
+	pending    []pendingAssert
+	flushing   bool
+	pcSet      map[*Term]bool
+	fixed      map[*Term]*big.Int
+	prodMemo   map[*Term]*Term
+	divMemo    map[[2]*Term][2]IntV
+	noFallback bool
+	defs       []*Term // defining equations of abstracted products
+	initMode   bool
+	created    []*Object
+	concrete   bool // init mode: no solver, everything must fold
+	stack      []string
 }
 
 func (ex *Exec) stop(reason, msg string) {
@@ -221,6 +227,29 @@ func (ex *Exec) check(extra *Term, want []*Term) (Result, map[string]*big.Int) {
 	}
 	t0 := time.Now()
 	r, m := ex.S.Check(ex.pc, extra, want)
+	if r == Unknown && !ex.noFallback {
+		// the incremental core gave up: decide in a fresh, non-incremental process
+		sec := ex.Opt.OneShotTimeoutSec
+		if sec == 0 {
+			sec = 20
+		}
+		r, m = OneShot(ex.S.Bin, ex.pc, extra, want, sec)
+		if r == Unknown && ex.Opt.Portfolio {
+			r, m = OneShot("cvc5", ex.pc, extra, want, sec)
+		}
+		if r != Unknown {
+			atomic.AddInt64(&GStats.OneShotDecided, 1)
+			atomic.AddInt64(&GStats.UnknownN, -1)
+			if r == Sat {
+				atomic.AddInt64(&GStats.SatN, 1)
+			} else {
+				atomic.AddInt64(&GStats.UnsatN, 1)
+			}
+		}
+	}
+	if dir := os.Getenv("VERIF_DUMP_UNKNOWN"); dir != "" && r == Unknown {
+		ex.dumpQuery(dir, extra)
+	}
 	if d := time.Since(t0); d > 2*time.Second && os.Getenv("VERIF_SLOWLOG") != "" {
 		x := ""
 		if extra != nil {
@@ -295,7 +324,10 @@ func (ex *Exec) decideV(c *Term, v *big.Int, trueKnownSat bool) bool {
 		}
 	}
 	if rt != Sat {
+		ex.S.NextTmo = ex.Opt.FeasTimeoutMs
+		ex.noFallback = true
 		rt, mt = ex.checkM(c)
+		ex.noFallback = false
 	}
 	if rt == Unsat {
 		ForcedSite(ex.where())
@@ -307,7 +339,10 @@ func (ex *Exec) decideV(c *Term, v *big.Int, trueKnownSat bool) bool {
 		return false
 	}
 	if rf != Sat {
+		ex.S.NextTmo = ex.Opt.FeasTimeoutMs
+		ex.noFallback = true
 		rf, mf = ex.checkM(Not(c))
+		ex.noFallback = false
 	}
 	if rf == Unsat {
 		ForcedSite(ex.where())
@@ -1120,7 +1155,19 @@ func (ex *Exec) concretize(v IntV, what string) *big.Int {
 			case Unsat:
 				ex.stop("assume", "infeasible at concretize")
 			case Unknown:
-				ex.stop("unwind", "solver unknown at concretize("+what+")")
+				// candidate from the linear relaxation of the path condition (sound: the
+				// candidate is only a guess, the fork below still covers every value)
+				var lin []*Term
+				for _, a := range ex.pc {
+					if !nonlinear(a) {
+						lin = append(lin, a)
+					}
+				}
+				r2, m2 := OneShot(ex.S.Bin, lin, nil, []*Term{t}, 10)
+				if r2 != Sat {
+					ex.stop("unwind", "solver unknown at concretize("+what+")")
+				}
+				m = m2
 			}
 			cand = m[t.SMT()]
 			if cand == nil {
@@ -1200,4 +1247,46 @@ func ForkSite(w string) {
 	forkMu.Lock()
 	ForkSites[w]++
 	forkMu.Unlock()
+}
+
+var dumpSeq int64
+
+func (ex *Exec) dumpQuery(dir string, extra *Term) {
+	all := append([]*Term{}, ex.pc...)
+	if extra != nil {
+		all = append(all, extra)
+	}
+	vs := map[*Term]bool{}
+	for _, t := range all {
+		t.Vars(vs)
+	}
+	var sb strings.Builder
+	for v := range vs {
+		fmt.Fprintf(&sb, "(declare-const %s %s)\n", v.Name, v.Sort)
+	}
+	for _, t := range all {
+		fmt.Fprintf(&sb, "(assert %s)\n", t.SMT())
+	}
+	sb.WriteString("(check-sat)\n")
+	forkMu.Lock()
+	dumpSeq++
+	n := dumpSeq
+	forkMu.Unlock()
+	os.WriteFile(fmt.Sprintf("%s/q%d.smt2", dir, n), []byte(sb.String()), 0o644)
+}
+
+// nonlinear reports whether t contains a product of two non-constant terms.
+func nonlinear(t *Term) bool {
+	if t.Op == "*" && !t.Args[0].IsConst() && !t.Args[1].IsConst() {
+		return true
+	}
+	if (t.Op == "div" || t.Op == "mod") && !t.Args[1].IsConst() {
+		return true
+	}
+	for _, a := range t.Args {
+		if nonlinear(a) {
+			return true
+		}
+	}
+	return false
 }
